@@ -75,6 +75,7 @@ fn pmetric(v: &Value) -> Option<PositionalMetricType> {
 }
 
 struct Interp {
+    visual_records: u64,
     vars: HashMap<String, Val>,
     idmap: HashMap<String, HashMap<u64, u64>>,
 }
@@ -413,6 +414,7 @@ impl Interp {
                     }
                     _ => panic!("predict on a non-simple tracker"),
                 };
+                self.visual_records += res.iter().filter(|t| matches!(t.voting_type, VotingType::Visual)).count() as u64;
                 json!(res.iter().map(|t| track(t, t.id)).collect::<Vec<_>>())
             }
             "predict_batch" => {
@@ -798,14 +800,24 @@ impl<'a> Gen<'a> {
         let mut names: Vec<&str> = all.to_vec();
         self.rng.shuffle(&mut names);
         let k = 3 + self.rng.usize(all.len() - 2);
-        for name in names.into_iter().take(k) {
+        let mut chosen: Vec<&str> = names.into_iter().take(k).collect();
+        // most option objects make appearance voting reachable within a short history and put the quality gates
+        // inside the range of the generated qualities
+        if self.rng.chance(0.8) {
+            for must in ["visual_minimal_track_length", "visual_minimal_quality_use", "visual_minimal_quality_collect", "visual_metric", "max_idle_epochs"] {
+                if !chosen.contains(&must) {
+                    chosen.push(must);
+                }
+            }
+        }
+        for name in chosen {
             let val = match name {
                 "max_idle_epochs" => json!(1 + self.rng.usize(5)),
                 "kept_history_length" => json!(1 + self.rng.usize(6)),
                 "visual_min_votes" => json!(1 + self.rng.usize(3)),
                 "visual_metric" => {
                     if self.rng.chance(0.5) {
-                        json!(["euclidean", *self.rng.pick(&[0.5f64, 1.0, 2.0])])
+                        json!(["euclidean", *self.rng.pick(&[0.25f64, 0.5, 1.0])])
                     } else {
                         json!(["cosine", *self.rng.pick(&[0.5f64, 0.75, 0.875])])
                     }
@@ -815,9 +827,9 @@ impl<'a> Gen<'a> {
                     json!(c)
                 }
                 "positional_metric" => self.metric(),
-                "visual_minimal_track_length" => json!(1 + self.rng.usize(3)),
+                "visual_minimal_track_length" => json!(1 + self.rng.usize(2)),
                 "visual_minimal_area" => json!(*self.rng.pick(&[0.0f64, 100.0, 400.0])),
-                "visual_minimal_quality_use" => json!(*self.rng.pick(&[0.0f64, 0.25, 0.5])),
+                "visual_minimal_quality_use" => json!(*self.rng.pick(&[0.25f64, 0.5, 0.5])),
                 "positional_min_confidence" => json!(*self.rng.pick(&[0.0625f64, 0.125, 0.25])),
                 "visual_max_observations" => json!(3 + self.rng.usize(4)),
                 "visual_minimal_quality_collect" => json!(*self.rng.pick(&[0.0f64, 0.5, 0.75])),
@@ -863,7 +875,7 @@ impl<'a> Gen<'a> {
                     d.insert("feature".into(), json!(ft));
                 }
                 if self.rng.chance(0.8) {
-                    d.insert("quality".into(), json!(*self.rng.pick(&[0.25f64, 0.5, 0.75, 1.0])));
+                    d.insert("quality".into(), json!(*self.rng.pick(&[0.125f64, 0.25, 0.5, 0.75, 1.0])));
                 }
             }
             v.push(Value::Object(d));
@@ -908,11 +920,21 @@ impl<'a> Gen<'a> {
         }
         let nscenes = 1 + self.rng.usize(2);
         let mut worlds: Vec<Vec<(f64, f64, Vec<f32>)>> = (0..nscenes).map(|_| (0..1 + self.rng.usize(3)).map(|k| (100.0 + 150.0 * k as f64, 100.0 + 90.0 * k as f64, vec![k as f32, 1.0 - k as f32 * 0.5, 0.25])).collect()).collect();
-        for _ in 0..4 + self.rng.usize(6) {
-            match self.rng.usize(12) {
+        let nops = if visual { 10 + self.rng.usize(14) } else { 5 + self.rng.usize(8) };
+        for _ in 0..nops {
+            let choice = self.rng.usize(12);
+            if choice == 0 {
+                // a skip is always followed by the observers that could see a difference
+            }
+            match choice {
                 0 => {
                     let sc = if self.rng.chance(0.5) { Value::Null } else { json!(self.rng.usize(nscenes)) };
-                    push!(self, json!(["skip", null, t, sc, 1 + self.rng.usize(3)]));
+                    push!(self, json!(["skip", null, t, sc, 1 + self.rng.usize(5)]));
+                    push!(self, json!(["shard_stats", null, t]));
+                    push!(self, json!(["epoch", null, t, sc]));
+                    if self.rng.chance(0.5) {
+                        push!(self, json!(["idle", null, t, sc]));
+                    }
                 }
                 1 => push!(self, json!(["wasted", null, t])),
                 2 => {
@@ -1070,7 +1092,7 @@ fn main() {
     // Rust side + comparison
     for (k, (idx, script)) in scripts.iter().enumerate() {
         rep.eval();
-        let mut it = Interp { vars: HashMap::new(), idmap: HashMap::new() };
+        let mut it = Interp { visual_records: 0, vars: HashMap::new(), idmap: HashMap::new() };
         let mut rtrace = vec![];
         for st in script {
             let r = std::panic::catch_unwind(std::panic::AssertUnwindSafe(|| it.step(st)));
@@ -1081,6 +1103,7 @@ fn main() {
         }
         let ptrace = traces[k].as_array().unwrap();
         rep.add("steps_compared", script.len() as u64);
+        rep.add("records_with_visual_voting", it.visual_records);
         for (i, st) in script.iter().enumerate() {
             let (pv, rv) = (&ptrace[i], &rtrace[i]);
             let both_exc = pv.get("exception").is_some() && rv.get("exception").is_some();
